@@ -5,6 +5,7 @@
    error / zero return met before completion stops the process (SIGABRT). *)
 open Common
 open Mtbl_model
+type string = Stdlib.String.t
 open Gen
 
 external c_set_sched : int array -> unit = "vp_set_write_schedule"
